@@ -401,3 +401,28 @@ def c09f(db, res):
                     res.violated('C09.f', key, '%s overwrites %s without testing it against %s: a direction that reported %s is revived and later calls run parsing callbacks again'
                                  % (name, key_l, ' / '.join(missing), ' / '.join(m.replace('HTP_STREAM_', '') for m in missing)), x['loc'])
     res.floor('C09.f', 'status writes outside the owning direction', n, 4)
+    # ---- C09.j: the other direction's callbacks are not run for a direction that has reported ERROR or STOP
+    res.rule('C09.j', 'a final direction stays silent also when the other side drives: every call of a request-side transition (htp_tx_state_request_*) made from a response-side function, and vice versa, is guarded by that direction\'s status != ERROR and != STOP on a dominating edge')
+    nj = 0
+    for d, side, other in (('in', 'request', 'out'), ('out', 'response', 'in')):
+        st_fld = 'connp->%s_status' % d
+        callers = set(P.state_functions(db, other)) | {DRIVERS[other]}
+        for name in sorted(callers):
+            f = db.get(name)
+            for b, i, c in f.calls():
+                cal = c.get('callee') or ''
+                if not cal.startswith('htp_tx_state_%s_' % side):
+                    continue
+                nj += 1
+                facts = [a for a, e in P.facts_at(f, b) if a[0] == st_fld]
+                ne = any(a[1] == '!=' and a[2] == 'HTP_STREAM_ERROR' for a in facts)
+                ns = any(a[1] == '!=' and a[2] == 'HTP_STREAM_STOP' for a in facts)
+                specific = any(a[1] == '==' and a[2] not in ('HTP_STREAM_ERROR', 'HTP_STREAM_STOP') for a in facts)
+                missing = [s_ for s_, ok in (('ERROR', ne), ('STOP', ns)) if not ok]
+                key = '%s:calls:%s' % (name, cal)
+                if specific or not missing:
+                    res.holds('C09.j', key, 'guarded by %s' % st_fld, c['loc'])
+                else:
+                    res.violated('C09.j', key + ':unguarded-against:' + '+'.join(missing), '%s (the %s side) calls %s, which runs %s callbacks, without testing %s against %s: after the %s direction has reported ERROR or STOP its callbacks are run again from the other direction\'s data call'
+                                 % (name, 'response' if other == 'out' else 'request', cal, side, st_fld, ' / '.join(missing), side), c['loc'])
+    res.floor('C09.j', 'cross-direction transition calls', nj, 1)
